@@ -1025,6 +1025,19 @@ func (in *Inst) callAssertsOf(con *Contract, inherited bool, x *ssa.Call, st *St
 func (in *Inst) ghostAssign(gu GhostUpdate, env *SpecEnv, v Val, st *State) {
 	e := in.e
 	switch l := gu.Lhs.(type) {
+	case *ast.IndexExpr:
+		// ghost array element: name[idx] = v
+		id, ok := l.X.(*ast.Ident)
+		if !ok {
+			e.fail("ghostset: unsupported array target %s", gu.Name)
+		}
+		g, ok := e.W.ghosts[id.Name]
+		if !ok || g.Sort != "(Array Int Int)" {
+			e.fail("ghostset: %s is not a ghost array", id.Name)
+		}
+		e.regComp("g:"+id.Name, g.Sort)
+		idx := env.eval(l.Index)
+		st.set("g:"+id.Name, e.define("gst", g.Sort, sStore(st.get("g:"+id.Name), idx.T, v.T)))
 	case *ast.Ident:
 		g, ok := e.W.ghosts[l.Name]
 		if !ok {
